@@ -479,8 +479,15 @@ func (s *sim) byzStep() {
 	}
 	m := msg{kind: kind, h: h, r: r, from: from, vr: -1}
 	m.id = s.drawID(h, "byzVal", kind != 'P')
-	if kind == 'P' && rapid.IntRange(0, 2).Draw(rt, "byzVR") == 0 {
-		m.vr = types.Round(rapid.IntRange(-2, int(r)+1).Draw(rt, "byzVRv"))
+	if kind == 'P' {
+		switch rapid.IntRange(0, 5).Draw(rt, "byzVR") {
+		case 0:
+			m.vr = types.Round(rapid.IntRange(-2, int(r)+1).Draw(rt, "byzVRv")) // anything, also malformed
+		case 1, 2:
+			if r >= 1 {
+				m.vr = types.Round(rapid.IntRange(0, int(r)-1).Draw(rt, "byzVRv")) // a well-formed re-proposal
+			}
+		}
 	}
 	mask := s.drawSubset("byzTo")
 	if mask == 0 {
